@@ -186,6 +186,25 @@ package hybridbuffer
 //@   loop 2: invariant validfeeder(feeder) && bal(&feeder.chunkMan) == old(bal(&feeder.chunkMan))
 //@        && resolved - nrecv(feeder.inputChannel) - nrecv(feeder.outputChannel) == old(resolved - nrecv(feeder.inputChannel) - nrecv(feeder.outputChannel)) + (len(lastInputChunk.ID) > 0 ? 1 : 0)
 
+// the feeder's life: every chunk taken from the queue is forwarded / resolved by loadToOutput or is the chunk in hand when
+// the stop signal arrives, which goes to saveEverything together with everything still queued: at the end nothing that
+// was taken is unaccounted for (resolved + forwarded - taken is what it was, counting the window drained by saveEverything)
+//@ func (feeder *outputFeeder) Run()
+//@   property C03 C19 C04
+//@   requires validfeeder(feeder) && feeder.logger != nil && feeder.metrics.queuedChunksTransient != nil && feeder.metrics.queuedChunksPersistent != nil && feeder.outputClosed != nil && feeder.stopped != nil && feeder.consumerCounter != nil
+//@   requires notmanmetric(ref(feeder.metrics.queuedChunksTransient), &feeder.chunkMan) && notmanmetric(ref(feeder.metrics.queuedChunksPersistent), &feeder.chunkMan)
+//@   modifies everything
+//@   ensures[balance] bal(&feeder.chunkMan) == old(bal(&feeder.chunkMan))
+//@   ensures[every-chunk-taken-is-forwarded-saved-or-counted] resolved + nsent(feeder.outputChannel) - nrecv(feeder.inputChannel) - nrecv(feeder.outputChannel)
+//@        == old(resolved + nsent(feeder.outputChannel) - nrecv(feeder.inputChannel) - nrecv(feeder.outputChannel))
+//@     || (len(cur(lastInputChunk).ID) == 0 && resolved + nsent(feeder.outputChannel) - nrecv(feeder.inputChannel) - nrecv(feeder.outputChannel)
+//@        == old(resolved + nsent(feeder.outputChannel) - nrecv(feeder.inputChannel) - nrecv(feeder.outputChannel)) - 1)
+//@   loop 1: invariant validfeeder(feeder) && feeder.logger != nil && feeder.metrics.queuedChunksTransient != nil && feeder.metrics.queuedChunksPersistent != nil && feeder.outputClosed != nil && feeder.stopped != nil && feeder.consumerCounter != nil
+//@   loop 1: invariant notmanmetric(ref(feeder.metrics.queuedChunksTransient), &feeder.chunkMan) && notmanmetric(ref(feeder.metrics.queuedChunksPersistent), &feeder.chunkMan)
+//@   loop 1: invariant bal(&feeder.chunkMan) == old(bal(&feeder.chunkMan))
+//@   loop 1: invariant len(lastInputChunk.ID) == 0 && nrecv(feeder.outputChannel) == old(nrecv(feeder.outputChannel))
+//@   loop 1: invariant resolved + nsent(feeder.outputChannel) - nrecv(feeder.inputChannel) == old(resolved + nsent(feeder.outputChannel) - nrecv(feeder.inputChannel))
+
 //@ pure func notmanmetric(x int, m *chunkManager) bool := distinctfrom3(x, m) && x != ref(m.metrics.pendingChunks) && x != ref(m.metrics.inputChunksTotalTransient) && x != ref(m.metrics.inputChunksTotalPersistent)
 //@      && x != ref(m.metrics.consumedChunksTotal) && x != ref(m.metrics.leftoverChunksTotal) && x != ref(m.metrics.droppedChunksTotal)
 //@ pure func validbuf(b *bufferer) bool := b != nil && validman(&b.chunkMan) && b.feeder.outputChannel != nil && b.inputChannel != nil && b.metrics.queuedChunksTransient != nil && b.metrics.queuedChunksPersistent != nil
